@@ -99,3 +99,19 @@ def monotone_lemma(sink, prefix, rs, nbound, hyps=()):
              meta={"label": "%s: every summand is >= 0 (step of the monotonicity induction)" % rs.name})
     return z3.ForAll(ps + [a, b], z3.Implies(z3.And(a >= 0, a <= b), rs(*ps, a) <= rs(*ps, b)),
                      patterns=[z3.MultiPattern(rs(*ps, a), rs(*ps, b))])
+
+
+def step_monotone_lemma(sink, prefix, rs, hyps=()):
+    """For a RecSum with non-negative summands: 0 <= a < b  =>  S(p, a) + term(p, a) <= S(p, b)   (and S >= 0).
+    Step obligation: every summand is >= 0 (under hyps).  The conclusion follows by induction on b from the two
+    defining equations (base b = a+1: S(a+1) = S(a) + term(a); step: S(b+1) = S(b) + term(b) >= S(b));
+    the induction principle itself is trusted and named in the evidence."""
+    ps = [z3.Const("sp!%s!%d" % (rs.name, i), s_) for i, s_ in enumerate(rs.param_sorts)]
+    k = z3.Int("sk!%s" % rs.name)
+    a, b = z3.Int("sa!%s" % rs.name), z3.Int("sb!%s" % rs.name)
+    z = z3.RealVal(0) if rs.sort == z3.RealSort() else z3.IntVal(0)
+    sink.add(prefix, "induction-step", list(hyps), z3.ForAll(ps + [k], z3.Implies(k >= 0, rs.term(*ps, k) >= z)),
+             meta={"label": "%s: every summand is >= 0 (step of the monotonicity induction)" % rs.name})
+    return [z3.ForAll(ps + [a, b], z3.Implies(z3.And(a >= 0, a < b), rs(*ps, a) + rs.term(*ps, a) <= rs(*ps, b)),
+                      patterns=[z3.MultiPattern(rs(*ps, a), rs(*ps, b))]),
+            z3.ForAll(ps + [a], z3.Implies(a >= 0, rs(*ps, a) >= z), patterns=[rs(*ps, a)])]
